@@ -174,19 +174,10 @@ func (g *gen) multiTxn() {
 
 // systematic: every command type × pre-state × supplied-index class × payload relation.
 func systematic(rounds int) {
-	var order []string
-	byTyp := map[string][]drv{}
-	for _, d := range allDrivers() {
-		if _, ok := byTyp[d.typ]; !ok {
-			order = append(order, d.typ)
-		}
-		byTyp[d.typ] = append(byTyp[d.typ], d)
-	}
 	caseNo := uint64(0)
 	fork := func() *hx.RNG { caseNo++; return run.RNG.Fork(caseNo) }
 	for round := 0; round < rounds; round++ {
-		for _, typ := range order {
-			d := byTyp[typ][round%len(byTyp[typ])] // rotate through the entities of the type
+		for _, d := range allDrivers() { // every command type on every entity of its universe
 			for _, pre := range preStates {
 				if d.del == nil && (pre == "deleted" || pre == "recreated") {
 					continue
@@ -351,8 +342,8 @@ func history(r *hx.RNG, length int) {
 func main() {
 	run = hx.Start()
 	run.Rule = "one case = a fresh pair of worlds (Store methods / FSM raft commands) plus a history of commands; distinct by the full list of protocol lines; non-trivial = at least one conditional write was applied"
-	systematic(run.Scale(1, 3))
-	n := run.Scale(150, 1500)
+	systematic(run.Scale(1, 2))
+	n := run.Scale(150, 1200)
 	for i := 0; i < n; i++ {
 		history(run.RNG.Fork(uint64(1_000_000+i)), 6+i%12)
 	}
